@@ -160,7 +160,7 @@ Definition pure_answer (W : world) (call : value -> list nat -> option nat) (ch 
 
 (* ---- well-formed histories: those of Spec/RegChain.v (one flavour [fl]; registries are named
    after their creation; bases come earlier in creation order, so the registry graph is acyclic;
-   no rebuild(), which re-runs __init__ and forgets the sub-registries of a push registry);
+   rebuild() is admitted since the repaired __init__ keeps the sub-registries of a push registry);
    re-basing a specification is always allowed (keeping the specification graph acyclic is the
    caller's business: the real code recurses without bound on a cycle, the model just runs out of
    fuel, and the theorems do not need it). *)
